@@ -6,6 +6,7 @@ package proto
 // Drives the real internal/proto code; the Lean driver replays the `>` lines.
 
 import (
+	"fmt"
 	"encoding/binary"
 	"errors"
 	"io"
@@ -133,15 +134,33 @@ func (c *h1Conn) SetWriteDeadline(time.Time) error { return nil }
 // h1Frames feeds the chunks to a real STUNConn and reads until the first error.
 // frames (if non-nil) are the frames the stream was built from: the C10 monitor compares.
 func h1Frames(t *vhT, chunks [][]byte, frames [][]byte, kind string) {
+	h1FramesCap(t, chunks, frames, kind, 0)
+	// the same stream read with a caller buffer smaller than some frames (the server reads into an
+	// inbound-MTU sized buffer): every frame must still be consumed exactly once
+	if t.Rng.Intn(5) == 0 {
+		h1FramesCap(t, chunks, nil, kind+"-smallbuf", []int{1, 7, 19, 64, 1600}[t.Rng.Intn(5)])
+	}
+}
+
+// h1FramesCap feeds the chunks to a real STUNConn and reads until the first error.
+// frames (if non-nil) are the frames the stream was built from: the C10 monitor compares.
+// bufCap > 0: the caller's buffer has that many bytes; ReadFrom reports the full frame size.
+func h1FramesCap(t *vhT, chunks [][]byte, frames [][]byte, kind string, bufCap int) {
 	var sb strings.Builder
 	nonEmpty := 0
+	total := 0
 	for _, c := range chunks {
 		if len(c) > 0 {
 			sb.WriteString(" " + vhHex(c))
 			nonEmpty++
+			total += len(c)
 		}
 	}
-	t.Op("frames%s", sb.String())
+	if bufCap > 0 {
+		t.OpSync("framesb %d%s", bufCap, sb.String())
+	} else {
+		t.Op("frames%s", sb.String())
+	}
 	cp := make([][]byte, len(chunks))
 	for i := range chunks {
 		cp[i] = append([]byte{}, chunks[i]...)
@@ -149,22 +168,39 @@ func h1Frames(t *vhT, chunks [][]byte, frames [][]byte, kind string) {
 	conn := &h1Conn{chunks: cp}
 	sc := NewSTUNConn(conn)
 	buf := make([]byte, 70000)
+	if bufCap > 0 {
+		buf = make([]byte, bufCap)
+	}
 	var out strings.Builder
 	var got [][]byte
 	end := ""
 	empties := 0
+	iters := 0
 	for end == "" {
 		n, _, err := sc.ReadFrom(buf)
+		iters++
 		switch {
 		case err == nil:
-			out.WriteString("F " + vhHex(buf[:n]) + " ")
-			got = append(got, append([]byte{}, buf[:n]...))
+			m := n
+			if m > len(buf) {
+				m = len(buf)
+			}
+			if bufCap > 0 {
+				out.WriteString(fmt.Sprintf("F %d %s ", n, vhHex(buf[:m])))
+			} else {
+				out.WriteString("F " + vhHex(buf[:m]) + " ")
+			}
+			got = append(got, append([]byte{}, buf[:m]...))
 			if n == 0 {
 				empties++
 				if empties >= 3 {
 					end = "spin"
 					t.Alarm("framer-spins", "zero-length frames returned repeatedly; stream=%s", kind)
 				}
+			}
+			if iters > total+2 {
+				end = "spin"
+				t.Alarm("framer-spins", "%d frames returned from a stream of %d bytes (a frame is returned without being consumed); stream=%s buffer=%d", iters, total, kind, len(buf))
 			}
 		case errors.Is(err, errInvalidTURNFrame):
 			end = "invalid"
